@@ -83,8 +83,10 @@ CLAIMED = {
  "C16": dict(text="On the model (definitions are immutable data; the inference store is the only thing threaded between uses): C16_instantiate_fresh / C16_instantiate_twice_disjoint, C16_unify_frame / "
         "C16_fix_frame / C16_apply_frame / C16_definitions_untouched (only variables reachable from the current terms or freshly allocated change), C16_history_independent (instantiating a schema and "
         "applying it to concrete arguments after ANY history gives the shifted result of the same run from the empty store), C16_history_content_irrelevant. With pending constraints (Props/C16Constr.lean, C16c_*, 30 theorems): freshness of instantiation without any store hypothesis, frame and reads-only-its-region theorems for all twelve engine "
-        "functions and arbitrary flags, instantiation independent of the content of the history. Partial: the shift form of history independence is proved without constraints only; the "
-        "shift statement for unify on arbitrary open terms is false of the model because of occurs-check fuel (C16_history_independent_unify_fails). Python-level aliasing is decided by "
+        "functions and arbitrary flags, instantiation independent of the content of the history. Shift form with constraints (Props/C16Shift.lean, C16s_*, 26 theorems): behind ANY history a whole use, and every engine function, is the fresh run renamed and "
+        "computed with the model's four store-size fuels offset by the history's sizes (C16s_history_shift) - the history is never read or written, only its size leaks, through fuels; the plain statement holds "
+        "exactly when the fresh run is insensitive to those offsets (C16s_history_independent_iff; usable direction C16s_history_independent_partial) and is false of the model on terms nested deeper than 4*vars+64 "
+        "(kernel-checked C16s_history_independent_fails*; an artefact of the model's fuels - Python recurses without fuel - as is C16_history_independent_unify_fails). Python-level aliasing is decided by "
         "histories of parse/validate/graph/query calls on one Language followed by a probe compared with a fresh language and the model, a polymorphic-data-constant family, plain wildcard signatures, and "
         "the verdict of Language.validate() after histories that close the language.",
         technique="Lean 4 proof (frame and equivariance lemmas by induction over the mutual unifier) + model/implementation correspondence over histories",
@@ -99,7 +101,7 @@ CLAIMED = {
         ref="6/C18"),
  "C19": dict(text="On the model: C19_worklist / C19_worklist_mkCanon (the canon does not depend on the order the work list is processed), C19_foldl_add_perm / C19_emission_perm(_canonical) (the triple "
         "set does not depend on the order in which set-valued collections are emitted), C19_model_deterministic. Partial by nature: hash-seed and allocation-history dependence is runtime behaviour "
-        "no model exhibits; it is exercised by generating every graph in fresh interpreters (PYTHONHASHSEED 0-3, random; after unrelated graphs; reversed listing) and comparing canonical digests of the literal text with only the running numbers removed, printed order included (this found and fixed D28). Vocabulary: isomorphic graphs for any two iteration orders of the canon (Props/C19Vocab.lean).",
+        "no model exhibits; it is exercised by generating every graph in fresh interpreters (PYTHONHASHSEED 0-3, random; after unrelated graphs; reversed listing) and comparing isomorphism-invariant digests (harness/iso.py; equal digests confirmed by an exact isomorphism test) of the graphs with only the running numbers of printed variables removed, printed order included (this found and fixed D28). Vocabulary: isomorphic graphs for any two iteration orders of the canon (Props/C19Vocab.lean).",
         technique="Lean 4 proof (permutation invariance of set-emitting folds) + cross-interpreter determinism check",
         ref="6/C19"),
  "C09": dict(text="Full for the repaired add_from: C09_step proves that one add_from call (plain and recursive branch, cycles allowed) keeps "
